@@ -1,7 +1,7 @@
 #!/bin/bash
 # import_seeds.sh Cxx ... : confirm each /tmp/mut/Cxx.out/{a,b} and copy into /verif/seeded/
 for id in "$@"; do
- for v in a b; do
+ for v in $(ls /tmp/mut/$id.out); do
   src=/tmp/mut/$id.out/$v
   [ -f $src/patch.diff ] || continue
   res=$(/verif/tools/confirm_seed.sh $src)
